@@ -33,6 +33,7 @@ RULE = (
     "Non-trivial = every compared call / class program; distinct = (kind, signature, stack, shape) or class-program tag."
     ' Class twins added: instance-only descriptor as class attribute, __new__ reached through an instance, invarian'
     't mix-in in front of a built-in base (hash / == / dict lookup / str / ordering as the built-in).'
+    ' Plain sub-class joining a class with invariants and a mixin that defines special methods (__str__, __eq__, __hash__, __format__, __lt__) or a constructor (__new__).'
 )
 ASSUMPTIONS = ["all contracts in this workload hold; construction paths that bypass the constructor are a silent zone"]
 
